@@ -1,11 +1,16 @@
 // C05 — masked or undefined samples never influence a result.
 //
 // Metamorphic monitor.  For each case: a sample set with dropped samples (switched off by the selection, all values
-// undefined, one coordinate undefined), from which two Dbs are built by the harness:
+// undefined, one coordinate undefined, ...), from which two Dbs are built by the harness:
 //   masked  = every sample present, dropped ones masked / undefined and POISONED (values 1e15, far-away coordinates)
 //   reduced = only the kept rows (Db::createFromSamples on the kept rows; no library helper involved)
-// One operation is run on both; every output is compared through the kept-sample index map.
-// Operation list (printed in the evidence `rule`): see OPS[] below.
+// One operation is run on both; every output is compared, BIT FOR BIT, through the kept-sample index map.
+// Operation list (printed in the evidence `rule`, lib/checks_d/c05.py): see OPS[] at the end of this file.
+//
+// Generator restrictions that steer around library defects FOREIGN to C05 (each is explained where it is applied
+// and listed in the author report): xvalid / simtub keep undefined-value samples inside the field; sparse covariance
+// builder restricted to variable ranks -1 / 0; conditional simulations go to a grid; no vmin/vmax in dbStatisticsMono.
+// Generator switches for input classes hit by C05 defects: AVOID_* in common/c05_gen.hpp (all off by default).
 #include "common/vh.hpp"
 #include "common/c05_gen.hpp"
 
@@ -45,10 +50,9 @@
 using namespace vh;
 using namespace c05;
 
-static const double EPS = 2.220446049250313e-16;
 #define TRACE(c, ...) do { if ((c).verbose) { fprintf(stderr, "TRACE " __VA_ARGS__); fputc('\n', stderr); } } while (0)
 
-// Violation key of a case.  Two input classes are hit by defects that make MANY oracles of an operation fail for one
+// Violation key of a case.  Some input classes are hit by defects that make MANY oracles of an operation fail for one
 // and the same reason; for them the key is collapsed to one per operation so that it can be listed once:
 //   * samples with an undefined coordinate  -> C05:<op>:undefined-coordinate
 //   * selection whose "off" value is the undefined value     -> C05:<op>:selection-value-undefined
@@ -392,11 +396,9 @@ static NeighSpec genNeigh(Rng& r, int ndim, bool forceUnique = false)
   ns.radius = r.coin(0.7) ? r.uni(30, 120) : TEST;
   if (ndim >= 2 && r.coin(0.3)) { ns.nsect = r.irange(2, 6); ns.nsmax = r.irange(1, 3); }
   ns.leaf = r.irange(2, 12);
-  // NOTE: coefficients are always given: without them BiTargetCheckDistance assumes a 2-D space whatever the Db
-  // (out-of-bounds read in 1-D, third coordinate ignored in 3-D) - not a C05 matter, reported separately.
-  ns.coeffs.resize(ndim, 1.);
-  if (r.coin(0.4))
+  if (r.coin(0.5))
   {
+    ns.coeffs.resize(ndim, 1.);
     for (int d = 0; d < ndim; d++) ns.coeffs[d] = r.uni(0.5, 2.);
     if (ndim >= 2 && r.coin(0.5)) { ns.angles.resize(ndim, 0.); ns.angles[0] = r.uni(0, 180); }
   }
@@ -437,7 +439,7 @@ static void opKriging(Rng& r, Ctx& c)
   }
   ModelSpec ms;
   auto model = genModel(r, s.ndim, s.nvar, drift, ms);
-  bool linear = !fext && r.coin(0.1);
+  bool linear = !fext && r.coin(0.1) && !avoid("linear", AVOID_LINEAR) && s.by != BY_SELNA && s.by != BY_UCOORD; // (one exotic feature at a time)
   if (linear) { drift = 0; model = genLinearModel(r, s.nvar, ms); }
   if (fext) { model->setDriftIRF(drift, 1); ms.desc += "+fext"; }
   NeighSpec ns = genNeigh(r, s.ndim);
@@ -530,7 +532,7 @@ static void opXvalid(Rng& r, Ctx& c)
   int drift = r.irange(-1, 1);
   ModelSpec ms;
   auto model = genModel(r, s.ndim, s.nvar, drift, ms);
-  bool linear = r.coin(0.1);
+  bool linear = r.coin(0.1) && !avoid("linear", AVOID_LINEAR) && s.by != BY_SELNA && s.by != BY_UCOORD; // (one exotic feature at a time)
   if (linear) { drift = 0; model = genLinearModel(r, s.nvar, ms); }
   NeighSpec ns = genNeigh(r, s.ndim);
   std::string nd = ns.desc;
@@ -633,21 +635,8 @@ static void opVario(Rng& r, Ctx& c)
   else if (dirKind == 1 && s.ndim == 2) vp.reset(VarioParam::createMultiple(r.irange(2, 4), npas, dpas, toldis, r.uni(0, 90)));
   else { dirKind = 2; vp.reset(VarioParam::createFromSpaceDimension(npas, dpas, toldis, r.uni(20, 60))); }
   bool flagSample = r.coin(0.15);
-  // The by-sample algorithm (flag_sample, and always for COVARIOGRAM: Vario::_calculateGeneralSolution2) accumulates
-  // through the file-static IDIRLOC of Vario.cpp which it never sets: its result depends on the variogram computed
-  // before in the same process (and it aborts when that one had more directions) - a C10 matter, reported.  To still
-  // monitor that path for C05 the generator restricts it to ONE direction and primes IDIRLOC=0 before each run.
+  // by-sample algorithm: flag_sample, and always for COVARIOGRAM (Vario::_calculateGeneralSolution2)
   bool bySample = flagSample || calc == ECalcVario::COVARIOGRAM;
-  if (bySample && dirKind != 0) { dirKind = 0; vp.reset(VarioParam::createOmniDirection(npas, dpas, toldis)); }
-  auto prime = [&]() {
-    if (!bySample) return;
-    std::vector<std::vector<double>> px(s.ndim, std::vector<double> {0., 0.}), pz(1, std::vector<double> {0., 1.});
-    px[0][1] = 1.; // one pair at distance 1 = first lag
-    auto pdb = mkDb(2, px, pz, nullptr);
-    std::unique_ptr<VarioParam> pvp(VarioParam::createOmniDirection(2, 1., 0.5));
-    std::unique_ptr<Vario> pv(Vario::create(*pvp));
-    pv->compute(pdb.get(), ECalcVario::VARIOGRAM);
-  };
   std::string cn(calc.getKey());
   c.setSig(fmt("vario:%s:dir=%d:ndim=%d:nvar=%d:%s:w=%d:fs=%d", cn.c_str(), dirKind, s.ndim, s.nvar, s.sigtag().c_str(), (int)!s.w.empty(), (int)flagSample));
   c.puts("op", "Vario::compute");
@@ -660,7 +649,6 @@ static void opVario(Rng& r, Ctx& c)
   std::vector<double> snap = snapshot(dM.get(), ncM);
   std::unique_ptr<Vario> vM(Vario::create(*vp)), vR(Vario::create(*vp));
   TRACE(c, "vario %s %s n=%d kept=%d -> masked run", cn.c_str(), s.sigtag().c_str(), s.n, s.nkept());
-  prime();
   int errM = vM->compute(dM.get(), calc, flagSample);
   if (s.nkept() == 0)
   {
@@ -681,17 +669,15 @@ static void opVario(Rng& r, Ctx& c)
   else
   {
     TRACE(c, "-> reduced run");
-    prime();
-    int errR = vR->compute(dR.get(), calc, flagSample);
+      int errR = vR->compute(dR.get(), calc, flagSample);
     c.truth("vario:rc", K + ":return-code", (errM == 0) == (errR == 0), fmt("masked run rc=%d reduced run rc=%d (kept=%d)", errM, errR, s.nkept()));
     if (errM == 0 && errR == 0)
     {
-      // global statistics stored with the variogram (one key: they come from one routine, Vario::_getStatistics)
-      cmpVecExact(c, "vario:means", "C05:vario:getMeans:differs", "means", vM->getMeans(), vR->getMeans());
-      cmpVecExact(c, "vario:vars", K + ":vars-differ", "vars", vM->getVars(), vR->getVars());
+      // global statistics stored with the variogram (Vario::_getStatistics)
+      cmpVecExact(c, "vario:means", K + ":differs", "means", vM->getMeans(), vR->getMeans());
+      cmpVecExact(c, "vario:vars", K + ":differs", "vars", vM->getVars(), vR->getVars());
       c.truth("vario:shape", K + ":shape", vM->getDirectionNumber() == vR->getDirectionNumber() && vM->getVariableNumber() == vR->getVariableNumber());
-      // POISSON subtracts getMean(ivar)/2 per pair: it inherits any error of the means
-      std::string Kg = calc == ECalcVario::POISSON ? "C05:vario:POISSON:uses-getMeans:differs" : K + ":differs";
+      std::string Kg = K + ":differs";
       for (int id = 0; id < vM->getDirectionNumber(); id++)
         for (int iv = 0; iv < s.nvar; iv++)
           for (int jv = 0; jv <= iv; jv++)
@@ -1019,7 +1005,30 @@ static void opSimtub(Rng& r, Ctx& c)
   // matter, reported); it would make every masked-vs-reduced comparison differ for a reason foreign to C05.
   Targets t = genTargets(r, s, 4, c.thorough() ? 40 : 16);
   GridT g   = genGrid(r, s, c.thorough() ? 60 : 24);
-  bool linear = r.coin(0.2);
+  // Data close to a grid node.  After the conditioning, CalcSimuTurningBands::_updateData2ToTarget copies the value of
+  // a datum onto the grid node it "coincides" with, coincidence meaning closer than 1e-6 x dbin->getExtensionDiagonal()
+  // - an extension taken over ALL samples (useSel = false), so the far-away coordinates of masked samples switch that
+  // snapping off.  (a) accidental near-coincidences are removed (every datum is kept > 1e-2 away from every node);
+  // (b) now and then one kept datum is put 2e-5 away from an active node on purpose, under its own key.
+  bool nearNode = false;
+  if (cond)
+  {
+    auto nodeCoord = [&](int j, int d) { int idx = j; for (int k = 0; k < d; k++) idx /= g.nx[k]; return g.x0[d] + (idx % g.nx[d]) * g.dx[d]; };
+    for (int i = 0; i < s.n; i++)
+      for (int j = 0; j < g.m; j++)
+      {
+        double d2 = 0;
+        for (int d = 0; d < s.ndim; d++) d2 += (s.x[d][i] - nodeCoord(j, d)) * (s.x[d][i] - nodeCoord(j, d));
+        if (d2 < 1e-4) s.x[0][i] += 0.05;
+      }
+    nearNode = r.coin(0.15) && s.nkept() >= 3 && !g.active.empty() && s.by != BY_SELNA && s.by != BY_UCOORD;
+    if (nearNode)
+    {
+      int i = s.kept[r.irange(0, s.nkept() - 1)], j = g.active[r.irange(0, (int)g.active.size() - 1)];
+      for (int d = 0; d < s.ndim; d++) s.x[d][i] = nodeCoord(j, d) + (d == 0 ? 2e-5 : 0.);
+    }
+  }
+  bool linear = r.coin(0.2) && !avoid("linear", AVOID_LINEAR) && s.by != BY_SELNA && !nearNode; // (one exotic feature at a time)
   // (a field reduced to ONE point has a zero extension: the intrinsic generator then never returns, masks or not)
   if (linear && (cond ? s.nkept() + (int)g.active.size() : (int)t.active.size()) < 3) linear = false;
   if (linear)
@@ -1036,8 +1045,8 @@ static void opSimtub(Rng& r, Ctx& c)
   if (!cond) nd = "none";
   SelMode tsel = cond ? g.selMode : t.selMode;
   int nact     = cond ? (int)g.active.size() : (int)t.active.size();
-  c.setSig(fmt("%s:%s:ndim=%d:nvar=%d:%s:tsel=%s:drift=%d:nbtuba=%d", kind.c_str(), nd.c_str(), s.ndim, s.nvar, cond ? s.sigtag().c_str() : "-",
-               SELN[tsel], drift, nbtuba));
+  c.setSig(fmt("%s:%s:ndim=%d:nvar=%d:%s:tsel=%s:drift=%d:nbtuba=%d:near=%d", kind.c_str(), nd.c_str(), s.ndim, s.nvar, cond ? s.sigtag().c_str() : "-",
+               SELN[tsel], drift, nbtuba, (int)nearNode));
   c.puts("op", kind);
   c.puts("neigh", nd);
   c.puts("model", ms.desc);
@@ -1068,6 +1077,7 @@ static void opSimtub(Rng& r, Ctx& c)
   }
   Key K = cond ? mkKey(kind, "", s, ns.kind == 2) : Key {"C05:" + kind + ":by=none", false};
   if (linear && !K.collapsed) K = Key {"C05:" + kind + ":linear-model:field-extension", true};
+  if (nearNode && !K.collapsed) K = Key {"C05:simtub-cond:datum-near-grid-node:snap-tolerance", true};
   int ncM = doutM->getColumnNumber(), ncR = doutR->getColumnNumber(), ncDin = dinM->getColumnNumber();
   std::vector<double> snapOut = snapshot(doutM.get(), ncM), snapIn = snapshot(dinM.get(), ncDin);
   auto neigh = mkNeigh(ns, false), neighR = mkNeigh(ns, false);
